@@ -970,6 +970,56 @@ def gc_corpus():
     return res
 
 
+def run_hist(ctx, env):
+    """The expirer's own state in the state file: lease-age histogram built by the real add_lease_age_to_histogram,
+    saved inside a cycle by the real save_state (JSON list form), restored by a NEW LeaseCheckingCrawler
+    (add_initial_state), extended again - against the model's histAdd / histToJson / histFromJson."""
+    from allmydata.storage.expirer import LeaseCheckingCrawler
+    rng = ctx.rng
+    cfg = {"enabled": False, "imm": True, "mut": True, "mode": "age", "override": None, "cutoff": None}
+    fixed = [([5, 86400, -5, -86401, 90000], [100, 200000]), ([], [7]), ([3 * DAY + 1, 3 * DAY, 3 * DAY - 1], []),
+             ([400 * DAY, 1, 0, -1], [400 * DAY, 86399, 86400, -86400])]
+    n = 0 if os.environ.get("VERIF_CORPUS_ONLY") else ctx.budget(40, 800)
+    cases = list(fixed)
+    for _ in range(n):
+        def ages():
+            return [rng.choice([0, 1, -1, DAY, DAY - 1, -DAY, -DAY - 1, 31 * DAY, rng.randrange(-3 * DAY, 500 * DAY)])
+                    for _ in range(rng.choice([0, 1, 3, 8]))]
+        cases.append((ages(), ages()))
+    impl, lines = [], []
+
+    def js(lc):
+        l = lc.convert_lease_age_histogram(lc.state["cycle-to-date"]["lease-age-histogram"])
+        return ",".join("%d:%d:%d" % tuple(t) for t in l) or "-"
+    for (a, b) in cases:
+        ss = env.new_server(cfg)
+        lc = ss.lease_checker
+        lc.state["current-cycle"] = 0            # inside a cycle: save_state keeps cycle-to-date (in its JSON form)
+        for age in a:
+            lc.add_lease_age_to_histogram(age)
+        first = js(lc)
+        lc.save_state()
+        lc2 = LeaseCheckingCrawler(ss, os.path.join(ss.storedir, "lease_checker.state"),
+                                   os.path.join(ss.storedir, "lease_checker.history"), False, "age", None, None,
+                                   ("mutable", "immutable"))
+        try:
+            for age in b:
+                lc2.add_lease_age_to_histogram(age)
+            second = js(lc2)
+        except Exception as e:   # noqa
+            second = "EXC:" + type(e).__name__
+            if b:
+                ctx.violation("the lease crawler cannot continue its cycle after a restart: updating the lease-age histogram raises",
+                              {"kind": "hist", "before": a, "after": b}, "crawler-aborted:lease-age-histogram:after-restart-inside-a-cycle")
+        impl.append(first + " | " + second)
+        lines.append("hist %s %s" % (",".join(map(str, a)) or "-", ",".join(map(str, b)) or "-"))
+        ctx.case(("hist", tuple(a), tuple(b)) if (a or b) else None)
+        ctx.count("hist-cases")
+        shutil.rmtree(ss.storedir, ignore_errors=True)
+    ctx.compare("lease-age histogram across a state-file round trip inside a cycle",
+                [{"kind": "hist", "before": a, "after": b} for (a, b) in cases], impl, ctx.model(lines))
+
+
 def run_settings(ctx, env):
     """tahoe.cfg -> crawler configuration, including absent keys, unknown mode names and settings that do not belong
     to the chosen mode: the production path (read_config + _Client.get_anonymous_storage_server +
@@ -1067,6 +1117,7 @@ def _run(ctx, env):
             cases.append((cfg, now, shares, via))
     if not ctx.replay:
         run_settings(ctx, env)
+        run_hist(ctx, env)
         gcs = gc_corpus()
         if not os.environ.get("VERIF_CORPUS_ONLY"):
             gcs += [gen_gc_schedule(rng) for _ in range(ctx.budget(30, 600))]
